@@ -211,6 +211,9 @@ def structure_messages(mid0, rng, count):
         expect=False)
     add("8bit-body", _top(mid), ("Content-Type: text/plain; charset=\"iso-8859-1\"\r\n"
                                  "Content-Transfer-Encoding: 8bit\r\n\r\nd\xe9j\xe0 vu \xff\x00\x01\r\n", ["TEXT/PLAIN"]))
+    add("utf8-body", _top(mid), ("Content-Type: text/plain; charset=\"utf-8\"\r\nContent-Transfer-Encoding: 8bit\r\n\r\n"
+                                 + "d\u00e9j\u00e0 vu \u2713\u2713\u2713 \u65e5\u672c\r\n".encode("utf-8").decode("latin-1"),
+                                 ["TEXT/PLAIN"]))
     add("raw-8bit-headers", [f"From: J\xfcrgen \"J\" <j{mid}@example.com>", f"Subject: caf\xe9 \"x\" \\ \xc3\xa9",
                              f"Date: {DATE}", f"X-Verif-Id: {mid}"], ("\r\nbody\r\n", []), expect=False)
     add("missing-fields", [f"X-Verif-Id: {mid}", "X-Other: 1"], ("\r\nno date from subject\r\n", ["TEXT/PLAIN"]))
